@@ -116,7 +116,7 @@ def run_job(job, rep):
                 rep.reach["undeclared"] += 1
                 rep.ob("refuted", f"undeclared:{exc_site(e)}", case, repr(e))
 
-        _, st = core.explore(run, on_path=judge, stop=rep.enough, timeout=(300 if job.get("tier", "quick") == "quick" else 1500), path_timeout=25)
+        _, st = core.explore(run, on_path=judge, stop=rep.enough, timeout=(300 if job.get("tier", "quick") == "quick" else 1500), path_timeout=10)
         rep.add_stats(st)
 
 
